@@ -2,6 +2,7 @@ package main
 
 import (
 	"fmt"
+	"github.com/uhppoted/uhppote-core/uhppote"
 	"reflect"
 	"time"
 )
@@ -238,6 +239,37 @@ func runC02(o Opts) error {
 			_ = reflect.TypeOf
 		}
 	}
+	// the sentinels requested and echoed: GetCardByID(0) answered with card 0, GetCardByID(0xffffffff) with 0xffffffff
+	for _, cn := range []uint32{0, 0xffffffff, 0x00ffffff, 1} {
+		for _, echo := range []uint32{cn, 0, 0xffffffff} {
+			id := genID(r)
+			var oc OpCase
+			for k := 0; k < nOps; k++ {
+				if c := genOp(r, k, id, false); c.Name == "GetCardByID" {
+					oc = c
+					break
+				}
+			}
+			if oc.Name == "" {
+				continue
+			}
+			cnn := cn
+			oc.Coq = fmt.Sprintf("GetCardByID %d %d", id, cnn)
+			oc.JS = map[string]any{"op": "GetCardByID", "id": id, "coq": oc.Coq}
+			oc.Run = func(u uhppote.IUHPPOTE) string {
+				card, err := u.GetCardByID(id, cnn)
+				if err != nil {
+					return "RErr"
+				}
+				if card == nil {
+					return "RNone"
+				}
+				return rvals(cardVals(*card)...)
+			}
+			reply := genReply(r, oc.Resp, id, 0, map[string]uint64{"CardNumber": uint64(echo)})
+			apiCase(s, Cfg{}, oc, Script{Kind: "datagrams", Datagrams: [][]byte{reply}}, "reply/sentinel-requested", nil, true)
+		}
+	}
 	if o.Replay == "" {
 		dstC02(s, r)
 		latencyProbe(s, r)
@@ -330,6 +362,53 @@ func dstC02(s *Sink, r *Rand) {
 					n++
 				}
 			}
+		}
+	}
+	// the controller is CONFIGURED with a zone that skips an hour while the process runs under UTC: a timestamp inside that
+	// zone's skipped hour is still reported with the civil fields that were transmitted
+	time.Local = time.UTC
+	for _, z := range []string{"America/New_York", "Europe/London", "Australia/Lord_Howe", "America/Santiago"} {
+		loc, err := time.LoadLocation(z)
+		if err != nil {
+			continue
+		}
+		_, prev := time.Date(2021, 1, 1, 0, 0, 0, 0, time.UTC).In(loc).Zone()
+		for t := time.Date(2021, 1, 1, 0, 0, 0, 0, time.UTC); t.Year() < 2022; t = t.Add(30 * time.Minute) {
+			_, off := t.In(loc).Zone()
+			if off > prev { // clocks went forward at t: the wall clock readings [t+prev, t+off) do not exist in loc
+				for _, frac := range []int{0, 1, 2} {
+					w := t.Add(time.Duration(prev)*time.Second + time.Duration(frac)*time.Duration(off-prev)*time.Second/3)
+					stamp := []byte{0x20, bcd(w.Year() % 100), bcd(int(w.Month())), bcd(w.Day()), bcd(w.Hour()), bcd(w.Minute()), bcd(w.Second())}
+					for _, name := range []string{"GetStatus", "GetTime", "GetEvent"} {
+						id := genID(r)
+						var oc OpCase
+						for k := 0; k < nOps; k++ {
+							if c := genOp(r, k, id, false); c.Name == name {
+								oc = c
+								break
+							}
+						}
+						if oc.Name == "" {
+							continue
+						}
+						reply := genReply(r, oc.Resp, id, 0, nil)
+						switch name {
+						case "GetStatus":
+							copy(reply[20:27], stamp)
+							copy(reply[37:40], stamp[4:7])
+							copy(reply[51:54], stamp[1:4])
+						case "GetTime":
+							copy(reply[8:15], stamp)
+						case "GetEvent":
+							copy(reply[20:27], stamp)
+						}
+						cfg := Cfg{Devices: []DevCfg{{ID: id, Name: "z", Proto: "udp", TZ: loc}}}
+						apiCase(s, cfg, oc, Script{Kind: "datagrams", Datagrams: [][]byte{reply}}, "device-zone-gap/"+z+"/"+name, nil, true)
+						n++
+					}
+				}
+			}
+			prev = off
 		}
 	}
 	s.Extra["dst_day_replies"] = n
